@@ -311,6 +311,25 @@ pub fn judge<BF: PrimeField64, EF: ExtensionField<BF>>(
         if let Some(why) = alu_row_relation::<BF, EF>(op.kind, a, b, c, out, o.bool_out_tied) {
             return Some(format!("ALU row {} lane {} ({}): {why}", op.row, op.lane, op.kind));
         }
+        if o.bus {
+            // the statement is about witness slots: an operand cell that the layout leaves off the
+            // bus is the prover's to fill, but the op still names a slot there, and the relation
+            // must hold for the value that slot has everywhere else
+            let pr = alu_prep.row_slice(op.row)?;
+            let p13: Vec<u64> = pr[op.lane * 13..op.lane * 13 + 13].iter().map(|x| u(*x)).collect();
+            let dd = d as u64;
+            let sv = |idx: u64, cellv: EF| -> EF { slot_val.get(&(idx / dd)).copied().unwrap_or(cellv) };
+            let (sa, sb, sc, so) = (sv(p13[5], a), sv(p13[6], b), sv(p13[7], c), sv(p13[8], out));
+            let (sb, sc) = match op.kind {
+                "bool" => (b, c),
+                "add" | "mul" => (sb, c),
+                _ => (sb, sc),
+            };
+            let so = if op.kind == "bool" && !o.bool_out_tied { out } else { so };
+            if let Some(why) = alu_row_relation::<BF, EF>(op.kind, sa, sb, sc, so, o.bool_out_tied) {
+                return Some(format!("ALU row {} lane {} ({}): {why} for the values of the witness slots the op names (an operand cell is not tied to its slot)", op.row, op.lane, op.kind));
+            }
+        }
     }
     // ---- Horner steps, mapped to the circuit's HornerAcc ops in order
     let hops: Vec<(u64, u64, u64, u64, u64)> = circuit
